@@ -203,6 +203,9 @@ class CompilerTheory(Theory):
             if (cls + '.' + meth) not in core.module(ex.modname).functions:
                 ex.oblige(st.fork().tag('attr:' + meth), 'safety.no_such_attribute', 'false', 'safety')
                 return []
+            r = ex.try_inline(e, cls + '.' + meth, [base] + args, st)
+            if r is not None:
+                return r
             raise OutOfSubset('no contract for %s' % cname, e)
         return None
 
